@@ -83,7 +83,7 @@ C["C07"] = dict(assumptions=["bencode decoder replaced by 'any decoded value'", 
     H("ZZPathsConfined2", "internal/storage/filestorage", "name <= 2 bytes, <=2 files x <=2 components x <=2 bytes", None, T(120, 7000, 32, 8), replay="model"),
 ])
 C["C05"] = dict(assumptions=["os.OpenFile replaced by a recorder"], harnesses=[
-    H("ZZOpenSync", "internal/storage/filestorage", "every open of a data file carries O_SYNC|O_RDWR (existing-file path and create path)", T(20, 300), T(20, 300), replay="model"),
+    H("ZZOpenSync", "internal/storage/filestorage", "every open of a data file carries O_SYNC|O_RDWR on both the existing-file path and the create path (existence of the file symbolic; a missing file is created)", T(20, 300), T(20, 300), replay="model"),
 ])
 
 C["C11"] = dict(assumptions=["net.Conn replaced by an in-memory connection (vrt.Conn)", "time.Ticker never fires (keep-alive timing outside the claim)", "extension messages (bencoded payload) not covered"], harnesses=[
@@ -219,6 +219,7 @@ C["C11"]["harnesses"] += [
 C["C08"]["harnesses"] += [h for h in C["C11"]["harnesses"] if h["fn"] == "ZZReaderSlowPiece"]
 
 C["C14"]["harnesses"] += [
+    H("ZZResumeFieldUpdates", "internal/resumer/boltdbresumer", "on a record with all 32 flag combinations, arbitrary info-hash / info / bitfield bytes: each of the six single-field updaters (WriteStarted, HandleStopAfterDownload, HandleStopAfterMetadata, WriteCompleteCmdRun, WriteInfo, WriteBitfield) changes exactly the fields it documents and every other field reads back as written", T(80, 900), T(80, 900), replay="model"),
     H("ZZResumeRoundTrip", "internal/resumer/boltdbresumer", "a torrent record written with Write and read back with Read, then single-field updates (WriteStarted, WriteBitfield) read back: every field equal to what was written - arbitrary info-hash / info / bitfield bytes, all flag combinations, versions 0..3, port at the range boundaries, each transfer counter at every power-of-two boundary 2^k and 2^k-1 (k < 63), seeding time at 4 durations, concrete name / trackers / web seeds / added-at", T(80, 900), T(80, 900), replay="model"),
 ]
 C["C14"]["assumptions"] += ["resume round trip: bbolt replaced by its key/value contract (nested buckets as maps, Put stores a copy), encoding/json replaced by an opaque faithful encoding (tracker / url / peer lists not examined byte-wise)"]
